@@ -231,6 +231,18 @@ def props_check(pid, deps):
             else:
                 res["failed"] = "theorem %s depends on axioms outside the allow-list: %s" % (n, extra)
     res["discharged"] = disc
+    if os.environ.get("VERIF_TIER_EFFECTIVE") == "thorough":
+        # independent re-check of the compiled proofs (and of everything they depend on) with coqchk
+        mods = ["SP." + d[len("theories/"):-3].replace("/", ".") for d in deps]
+        with Lock("coq"):
+            rc, out, err = run(["coqchk", "-o", "-silent", "-Q", "theories", "SP"] + mods, cwd=COQ, timeout=1800)
+        txt = out + err
+        res["coqchk"] = {"modules": mods, "rc": rc, "axioms": re.findall(r"\* Axioms:\s*(.*)", txt)[:1],
+                         "type_in_type": re.findall(r"type-in-type:\s*(.*)", txt)[:1], "unsafe_fix": re.findall(r"unsafe \(co\)fixpoints:\s*(.*)", txt)[:1],
+                         "positivity_assumed": re.findall(r"positivity is assumed:\s*(.*)", txt)[:1]}
+        clean = rc == 0 and all(v == ["<none>"] for k, v in res["coqchk"].items() if k not in ("modules", "rc"))
+        if not clean:
+            res["failed"] = "coqchk does not accept %s cleanly: %s" % (mods, txt[-600:])
     bad = scan_forbidden()
     if bad:
         res["failed"] = "forbidden construct in the development: " + "; ".join(bad[:5])
@@ -342,6 +354,8 @@ class Check:
         self.cov["discharged"] = pr["discharged"]
         self.cov["theorems"] = [{"name": n, "closed_under_global_context": c and not a, "axioms": a}
                                 for (n, c, a) in pr["theorems"]]
+        if pr.get("coqchk"):
+            self.cov["coqchk"] = pr["coqchk"]
         if not pr["ok"]:
             self.broken.append(pr["failed"] or "proof obligations of %s" % self.pid)
             self.note("PROOF OBLIGATION BROKEN: %s" % pr["failed"])
